@@ -155,14 +155,7 @@ theorem updatePointersP_spec (c : ObjId) : ∀ (t : PHS) (st res : St) (g : HS),
         split at h
         · rename_i hc
           cases h
-          have hin : s ∈ (st.cellOf c).surfs := by
-            unfold memS at hc
-            rw [List.any_eq_true] at hc
-            obtain ⟨x, hx, he⟩ := hc
-            unfold surfEq at he
-            simp only [Bool.and_eq_true, beq_iff_eq] at he
-            have := eq_of_nodup_num st.snum st.surfaces hu s x hres.1 (hm x hx) he.1
-            rw [this]; exact hx
+          have hin : s ∈ (st.cellOf c).surfs := (memS_iff _ _ _).mp hc
           refine ⟨LoadExt.refl c st, hm, by simp [HS.allCell], fun x => ?_, fun d => by simp [HS.comps]⟩
           simp only [HS.surfs, Bool.false_eq_true, if_false, List.mem_singleton]
           constructor
